@@ -17,7 +17,8 @@ def cases(quick):
     out = []
     vals = ['none', 'zero', 'empty-str', 'empty-list', 'false', 'nested', 'obj', 'b0', 'b64k1', 'b208k1', 'b1m'] if quick else \
         ['none', 'zero', 'empty-str', 'empty-list', 'false', 'nested', 'obj', 'b0', 'b1', 'b64k', 'b64k1', 'b208k1', 'b1m', 'b4m']
-    excs = ['ve0', 've2', 'ke', 'custom'] if quick else ['ve0', 've2', 'ke', 'custom', 'oserr']
+    excs = ['ve0', 've2', 'ke', 'custom', 'bpe', 'eof', 'crst', 'empty', 'cce', 'wce'] if quick else \
+        ['ve0', 've2', 'ke', 'custom', 'oserr', 'bpe', 'eof', 'crst', 'empty', 'cce', 'wce', 'timeout', 'assert', 'stop']
     shapes = [([], {}), (['a'], {}), (['a', 2], {}), (['a'], {'k': [1]}), ([], {'k': 1, 'j': None})]
     for kind in ('T', 'P', 'R'):
         for factory in (False, True):
